@@ -2,6 +2,7 @@
 //! crafted complete archives.  Case language (the model side, ocaml/c14o/driver.ml, gets the same line with the
 //! implementation's ` FILE .. ZT ..` tail appended by checks/c14o.py:model_cases and ignores what it cannot use):
 //!   pre <fs> <from> <to> <hexfile>     every prefix length n in from..to-1 of the file: one token per prefix
+//!   prec <fs> <from> <to> <hexfile>    the same for a container-level file that is not a valid ragc archive
 //!   craft <fs> <variant> <paramshex> <payloadhex> <delta>
 //!                                      a complete archive built with ragc_common::Archive (writer):
 //!                                      streams/parts according to <variant> (see `craft`), the collection-samples
@@ -272,7 +273,7 @@ pub fn run(t: &[&str]) -> String {
             let _ = std::fs::remove_dir(&d);
             format!("{} ck={} m={}{}", c, b2s(overflow_checked()), m, zt_string(&zt))
         }
-        ["pre", fs, from, to, bytes] => {
+        ["pre" | "prec", fs, from, to, bytes] => {
             let Some(d) = dir_for(fs) else { return "HARNESS-ERROR bad fs".into() };
             limit_memory();
             let b = unhex(bytes);
